@@ -6,7 +6,8 @@ def run : St → List Int → St × List Int × Int
   | s, r :: q =>
     if cond r then
       match body r s with
-      | (s', some v) => (s', q, v)
+      | (s', some (some v)) => (s', q, v)          -- returned from inside the loop
+      | (s', some none) => (s', q, after s')        -- left the loop
       | (s', none) => run s' q
     else (s, r :: q, after s)
 
@@ -29,7 +30,7 @@ theorem reader_is_model (c : Cnt) (sk : Bool) (q : List Rec) :
   | nil => cases c; cases sk <;> simp [run, readResults, after, withFlag, start, toCnt, fin]
   | cons r q ih =>
     cases r <;> cases c <;> cases sk <;>
-      simp only [List.map_cons, run, codes_received, code, cond, body, andThen, withFlag, start, readResults, if_true] <;>
+      simp only [List.map_cons, run, codes_received, code, cond, body, andThen, goOn, leave, ret, withFlag, start, readResults, if_true] <;>
       first
       | (simp [toCnt, fin, after] ; done)
       | (rename_i p f s e
@@ -43,16 +44,23 @@ theorem reader_is_model (c : Cnt) (sk : Bool) (q : List Rec) :
          | (have := ih ⟨p, f, s, e + 1⟩ false; simpa [withFlag, start, Cnt.add_def, Rec.cnt] using this)
          | (have := ih ⟨p, f, s, e + 1⟩ true; simpa [withFlag, start, Cnt.add_def, Rec.cnt] using this))
 
-/-- **The decision of `reporter_finish_test()` is the model's** (`finishTest` of Model/Runner.lean): an exception exactly when no
-completion notice was received, or one was and the platform layer reports that the process was killed; shown as skipped exactly
-when the reader says so. -/
-theorem finish_decision (st : Finish) (msg : Bool) (v : Int) (hv : fin v = some st) :
-    finishException v msg = (st = .notReceived || (st = .received && msg)) ∧ finishSkipped v msg = (st = .skippedSt) := by
+def fstart (c : Cnt) : FSt := { passes := c.p, failures := c.f, skips := c.s, exceptions := c.e }
+def fCnt (s : FSt) : Cnt := ⟨s.passes, s.failures, s.skips, s.exceptions⟩
+
+/-- **What `reporter_finish_test()` does with the reader's status is what the model does** (`finishTest` of Model/Runner.lean): one
+exception is counted, and the test shown as incomplete, exactly when no completion notice was received, or one was and the platform
+layer reports that the process was killed; the test is shown as skipped exactly when the reader says so; nothing else is counted. -/
+theorem finish_decision (st : Finish) (msg : Bool) (v : Int) (c : Cnt) (hv : fin v = some st) :
+    let exc : Bool := st = .notReceived || (st = .received && msg)
+    fCnt (finish v msg (fstart c)).1 = (if exc then c + Rec.exception.cnt else c)
+    ∧ (finish v msg (fstart c)).1.incompleteShown = exc
+    ∧ (finish v msg (fstart c)).1.skipShown = (st = .skippedSt) := by
+  cases c
   unfold fin at hv
   split at hv
-  · cases hv; subst_vars; cases msg <;> simp [finishException, finishSkipped] <;> decide
+  · cases hv; subst_vars; cases msg <;> simp [finish, andThen, goOn, leave, ret, fstart, fCnt, Cnt.add_def, Rec.cnt]
   · split at hv
-    · cases hv; subst_vars; cases msg <;> simp [finishException, finishSkipped] <;> decide
+    · cases hv; subst_vars; cases msg <;> simp [finish, andThen, goOn, leave, ret, fstart, fCnt, Cnt.add_def, Rec.cnt]
     · split at hv
-      · cases hv; subst_vars; cases msg <;> simp [finishException, finishSkipped] <;> decide
+      · cases hv; subst_vars; cases msg <;> simp [finish, andThen, goOn, leave, ret, fstart, fCnt, Cnt.add_def, Rec.cnt]
       · cases hv
